@@ -35,7 +35,9 @@ func genSetOp(r *Run) SOp {
 	case 3:
 		return SOp{Kind: "string", Name: name, Val: pick(r, strPool)}
 	case 4:
-		return SOp{Kind: "counter", Name: name, Val: r.Rng.Intn(20) - 5}
+		// counters only under the counter names: a ctx variable assigned FROM a counter aliases it (known finding
+		// F-ctx-alias, probed separately), and the template generator avoids exactly these names as ctx sources
+		return SOp{Kind: "counter", Name: pick(r, []string{"c1", "cn"}), Val: r.Rng.Intn(20) - 5}
 	case 5:
 		n := r.Rng.Intn(4)
 		var l []string
